@@ -181,7 +181,7 @@ pub fn c07_extend<const N: usize, const L: usize>() {
     let mut i = 0;
     while i < L { if i < len { vf::assume(sim.n < N || sim.has(ks[i])); sim.insert(ks[i], 0, sers[i], 0); } i += 1; }
     s.extend(&mut src);
-    vf::check(src.pulled == len + 1, 708);
+    vf::check(src.pulled == len || src.pulled == len + 1, 708); // every item pulled once; the terminating None is optional
     md = sim;
     if len > 0 { vf::reach(1); } else { vf::reach(2); }
     observe_set(&s, &md);
